@@ -304,7 +304,11 @@ func (s *Stream) checkFinished() {
 // is set. This is to prevent errors from reads/writes to a transport after it
 // has been asynchronously closed due to context cancelation.
 func (s *Stream) checkCancelError(err error) error {
-	if s.sigs.cancel.IsSet() {
+	// only an error is replaced: an operation that succeeded has succeeded even
+	// if the stream is canceled right afterwards. reporting the cancel error for
+	// a successful SendError or CloseSend makes the server treat the whole
+	// connection as failed when a soft cancel from the client crosses it.
+	if err != nil && s.sigs.cancel.IsSet() {
 		return s.sigs.cancel.Err()
 	}
 	return err
